@@ -44,6 +44,10 @@ func (c *attachClient) PreAssign(e *Engine, st *State, lhs, rhs []ast.Expr, _ as
 			continue
 		}
 		fld := selField(e.Info, sel)
+		if fld == c.opF {
+			c.opStore(e, st, sel, rhs)
+			continue
+		}
 		if fld != c.sortF && fld != c.takeF {
 			continue
 		}
@@ -99,6 +103,47 @@ func (c *attachClient) PreAssign(e *Engine, st *State, lhs, rhs []ast.Expr, _ as
 		}
 	}
 	return nil
+}
+
+// opStore: an operator may only be put onto a subquery that was created for it on this path, or onto one with
+// nothing pending (no LIMIT; no ORDER BY unless the operator is a pure row filter, which commutes with a sort).
+func (c *attachClient) opStore(e *Engine, st *State, sel *ast.SelectorExpr, rhs []ast.Expr) {
+	base := sel.X
+	key := fmt.Sprintf("%s store %s.%s in case %s", c.fn, exprStr(base), c.opF.Name(), c.caseOf(e, sel))
+	if e.HasTag(st, base, "fresh:chainSubquery") || e.HasTag(st, base, "fresh:addr") {
+		e.Site("C02/attach", key, sel, true, "target subquery was created on this path")
+		return
+	}
+	bk := e.CanonSt(st, base)
+	var missing []string
+	if !bk.OK {
+		missing = append(missing, "a trackable target")
+	} else {
+		if f := st.Get(bk.Key + "." + c.takeF.Name()); f == nil || f.Nil != 1 {
+			missing = append(missing, "no row limit pending on it: the operator would be evaluated before a LIMIT that was written before it")
+		}
+		sortNil := false
+		if f := st.Get(bk.Key + "." + c.sortF.Name()); f != nil && f.Nil == 1 {
+			sortNil = true
+		}
+		filter := false
+		if len(rhs) == 1 {
+			if f := e.FactOf(st, rhs[0]); f != nil && len(f.TyIn) == 1 && f.TyIn[0] == "*parser.WhereOperator" {
+				filter = true
+			}
+		}
+		if !sortNil && !filter {
+			missing = append(missing, "no sort pending on it (or the operator being a pure row filter): its ORDER BY would refer to the columns after this operator")
+		}
+		if f := st.Get(bk.Key + "." + c.opF.Name()); f == nil || f.Nil != 1 {
+			missing = append(missing, "no operator already stored on it")
+		}
+	}
+	if len(missing) == 0 {
+		e.Site("C02/attach", key, sel, true, "guard facts: existing subquery has no operator and nothing pending that the operator would cross")
+	} else {
+		e.Site("C02/attach", key, sel, false, "an operator is merged into an existing subquery without: "+strings.Join(missing, "; "))
+	}
 }
 
 func (c *attachClient) caseOf(e *Engine, n ast.Node) string {
